@@ -8,7 +8,10 @@
                                  Update/RemoveWebhook, findMatchingHooks/BroadcastEvent
      host/settings/settings.go   NewConfigManager (settings <- Store.Settings), UpdateSettings
      host/accounts/accounts.go   NewManager (empty balance map), Credit, Budget; budget.go
-     host/storage/storage.go     NewVolumeManager/loadVolumes
+     host/storage/storage.go     NewVolumeManager/loadVolumes (a volume whose data file does not
+                                 open is flagged unavailable in the store and kept with status
+                                 "unavailable"; one that opens is flagged available and "ready"),
+                                 AddVolume, SetReadOnly, ResizeVolume (grow), Volumes/Volume
      index/manager.go            NewManager (tip <- Store.Tip), syncDB
      persist/sqlite/init.go      Store.init on a database of the current version
 
@@ -41,14 +44,15 @@ Record mems := {
   m_tree : list (path * N);                (* webhooks.Manager.scopes: (node, hook id) *)
   m_settings : N * N;                      (* ConfigManager.settings: revision, value *)
   m_bal : list (N * (N * N));              (* AccountManager.balances: (balance, open budgets) *)
-  m_vols : list N;                         (* VolumeManager.volumes *)
+  m_vols : list (N * bool);                (* VolumeManager.volumes: id -> status is "ready" (else "unavailable") *)
   m_tip : N                                (* index.Manager.index *)
 }.
 
 Record state := {
   db : dbs;
   mem : mems;
-  budgets : list (N * (N * N))             (* open budgets: id -> (account, max) *)
+  budgets : list (N * (N * N));            (* open budgets: id -> (account, max) *)
+  gone : list N                            (* the file system: volumes whose data file cannot be opened *)
 }.
 
 Definition init_db : dbs :=
@@ -56,6 +60,45 @@ Definition init_db : dbs :=
 
 Definition roots_of (l : list (N * list N)) (c : N) : list N :=
   match alookup c l with Some r => r | None => [] end.
+
+(** * Sector-root rows of a v2 contract *)
+(* rows by root_index: position = index, None = no row at that index *)
+(* SELECT ... ORDER BY root_index: the rows that exist, in index order *)
+Fixpoint somes (l : list (option N)) : list N :=
+  match l with
+  | [] => []
+  | Some x :: t => x :: somes t
+  | None :: t => somes t
+  end.
+
+(* INSERT INTO contract_v2_sector_roots (contract_id, sector_id, root_index) VALUES (?, ?, i)
+   ON CONFLICT (contract_id, root_index) DO UPDATE SET sector_id=excluded.sector_id *)
+Fixpoint upsert_row (i : nat) (r : N) (rows : list (option N)) : list (option N) :=
+  match i, rows with
+  | O, [] => [Some r]
+  | O, _ :: t => Some r :: t
+  | S i', [] => None :: upsert_row i' r []
+  | S i', x :: t => x :: upsert_row i' r t
+  end.
+
+(* updateV2ContractSectors, the loop from index i on ([old] is oldRoots[i:]): a root that
+   equals the old root at its index is skipped, every other one is upserted at its index *)
+Fixpoint v2_upserts (i : nat) (old new : list N) (rows : list (option N)) : list (option N) :=
+  match new with
+  | [] => rows
+  | r :: new' =>
+      let rows' := match old with
+                   | o :: _ => if (o =? r)%N then rows else upsert_row i r rows
+                   | [] => upsert_row i r rows
+                   end in
+      v2_upserts (S i) (tl old) new' rows'
+  end.
+
+(* ... then, if the list got shorter, DELETE ... WHERE root_index >= len(newRoots).
+   [old] is what the caller (contracts.Manager) passes as oldRoots: its cached list *)
+Definition v2_rows_update (rows : list (option N)) (old new : list N) : list (option N) :=
+  let rows' := v2_upserts 0 old new rows in
+  if (List.length new <? List.length old)%nat then firstn (List.length new) rows' else rows'.
 
 Definition bal_of (l : list (N * N)) (a : N) : N :=
   match alookup a l with Some b => b | None => 0%N end.
@@ -113,19 +156,33 @@ Definition deliver (m : mems) (e : path) : list N :=
 
 Definition next_id (hs : list (N * hook)) : N := (fold_left N.max (map fst hs) 0 + 1)%N.
 
+(** * Volume files *)
+Definition file_gone (g : list N) (id : N) : bool := existsb (N.eqb id) g.
+Definition unhide (id : N) (g : list N) : list N := filter (fun x => negb (x =? id)%N) g.
+Definition hide (id : N) (g : list N) : list N := id :: unhide id g.
+
+(* loadVolumes, store side: SetAvailable(id, OpenVolume succeeded) for every stored volume *)
+Definition mark_vols (g : list N) (vs : list (N * (bool * N * bool))) : list (N * (bool * N * bool)) :=
+  map (fun v => (fst v, (fst (fst (snd v)), snd (fst (snd v)), negb (file_gone g (fst v))))) vs.
+
+(* the store's available flags are those a start would write now: the same files open
+   as at the last start (or when the volume was added) *)
+Definition files_ok (g : list N) (vs : list (N * (bool * N * bool))) : bool :=
+  forallb (fun v => Bool.eqb (snd (snd v)) (negb (file_gone g (fst v)))) vs.
+
 (** * What a start loads *)
+(* [d] is the store after loadVolumes wrote the available flags; a volume is "ready" iff
+   its file opened, i.e. iff it has just been flagged available *)
 Definition load (d : dbs) : mems :=
   {| m_roots := d_roots d;   (* a contract without rows reads as the empty list either way *)
      m_hooks := d_hooks d;
      m_tree := build_tree (d_hooks d);
      m_settings := match d_settings d with Some rv => rv | None => (0%N, 0%N) end;
      m_bal := [];
-     m_vols := map fst (d_vols d);
+     m_vols := map (fun v => (fst v, snd (snd v))) (d_vols d);
      m_tip := d_tip d |}.
 
-Definition init : state := {| db := init_db; mem := load init_db; budgets := [] |}.
-
-Definition restart (s : state) : state := {| db := db s; mem := load (db s); budgets := [] |}.
+Definition init : state := {| db := init_db; mem := load init_db; budgets := []; gone := [] |}.
 
 (** * Operations *)
 Inductive op :=
@@ -144,6 +201,9 @@ Inductive op :=
 | RollbackBudget (b : N)
 | AddVol (id total : N)
 | SetRO (id : N) (ro : bool)
+| GrowVol (id total : N)                      (* ResizeVolume to a larger size *)
+| HideVolFile (id : N)                        (* the volume's data file is moved away *)
+| RestoreVolFile (id : N)                     (* ... and brought back *)
 | Observe
 | Restart
   (* an operation of any kind that returned an error (a store call that failed after the
@@ -156,7 +216,7 @@ Inductive obs :=
 | OHook (id : N)
 | ODeliver (urls : list N)
 | OState (roots : list (N * list N)) (hooks : list (N * (N * list path))) (settings : N * N)
-         (bals : list (N * N)) (vols : list (N * (bool * N * bool))) (tip : N)
+         (bals : list (N * N)) (vols : list (N * (bool * N * bool * bool))) (tip : N)
 | OPanic.
 
 (* small updaters *)
@@ -175,7 +235,17 @@ Definition set_m_bal (m : mems) x := {| m_roots := m_roots m; m_hooks := m_hooks
 Definition set_m_vols (m : mems) x := {| m_roots := m_roots m; m_hooks := m_hooks m; m_tree := m_tree m; m_settings := m_settings m; m_bal := m_bal m; m_vols := x; m_tip := m_tip m |}.
 Definition set_m_tip (m : mems) x := {| m_roots := m_roots m; m_hooks := m_hooks m; m_tree := m_tree m; m_settings := m_settings m; m_bal := m_bal m; m_vols := m_vols m; m_tip := x |}.
 
-Definition mk (d : dbs) (m : mems) (b : list (N * (N * N))) : state := {| db := d; mem := m; budgets := b |}.
+Definition mk (d : dbs) (m : mems) (b : list (N * (N * N))) (g : list N) : state :=
+  {| db := d; mem := m; budgets := b; gone := g |}.
+
+(* a start: loadVolumes writes the available flags, then every manager loads from the store *)
+Definition restart (s : state) : state :=
+  let d := set_db_vols (db s) (mark_vols (gone s) (d_vols (db s))) in
+  {| db := d; mem := load d; budgets := []; gone := gone s |}.
+
+(* VolumeManager.volumeStats: a volume that is not in the map reads as "unavailable" *)
+Definition vol_ready (m : mems) (id : N) : bool :=
+  match alookup id (m_vols m) with Some b => b | None => false end.
 
 (* ExpireContractSectors / ExpireV2ContractSectors at height h: every contract whose
    window (expiration) is below h loses its rows; the manager's cache is not touched *)
@@ -200,22 +270,37 @@ Definition close_budget (m : list (N * (N * N))) (a back : N) : res (list (N * (
 (* the accounts the harness uses *)
 Definition accounts : list N := [0; 1]%N.
 
+(* VolumeManager.Volumes: the stored row of every volume with the in-memory status *)
+Definition volumes (s : state) : list (N * (bool * N * bool * bool)) :=
+  map (fun v => (fst v, (snd v, vol_ready (mem s) (fst v)))) (d_vols (db s)).
+
 Definition observe (s : state) : obs :=
   OState (map (fun c => (fst c, roots_of (m_roots (mem s)) (fst c))) (d_cs (db s)))
          (map (fun h => (fst h, (h_url (snd h), h_scopes (snd h)))) (m_hooks (mem s)))
          (m_settings (mem s))
          (map (fun a => (a, mem_balance s a)) accounts)
-         (d_vols (db s))
+         (volumes s)
          (m_tip (mem s)).
 
 Definition step (s : state) (o : op) : state * obs :=
-  let d := db s in let m := mem s in let bs := budgets s in
+  let d := db s in let m := mem s in let bs := budgets s in let g := gone s in
   match o with
   | FormC c v2 wend =>
-      (mk (set_db_cs d (d_cs d ++ [(c, (v2, wend))])) m bs, ODone true)
+      (mk (set_db_cs d (d_cs d ++ [(c, (v2, wend))])) m bs g, ODone true)
   | Commit c roots =>
-      (* Store.ReviseContract / ReviseV2Contract, then setSectorRoots *)
-      (mk (set_db_roots d (aset c roots (d_roots d))) (set_m_roots m (aset c roots (m_roots m))) bs, ODone true)
+      (* Store.ReviseContract / ReviseV2Contract, then setSectorRoots.
+         v2: the store updates the contract's rows relative to the list the manager has
+         cached (updateV2ContractSectors: unchanged positions are skipped, the others
+         upserted, the tail past the new end deleted).  [d_roots] keeps a contract's rows in
+         index order without the indices, so the rows are taken to sit at 0 .. n-1: exact
+         unless an earlier step recorded as a finding left the cache of this very contract
+         longer than its rows.
+         v1: the updater's sector changes, by their result (the store cross-checks each
+         change against the same cached list and fails the revision on a difference) *)
+      let v2 := match alookup c (d_cs d) with Some (b, _) => b | None => false end in
+      let stored := if v2 then somes (v2_rows_update (map Some (roots_of (d_roots d) c)) (roots_of (m_roots m) c) roots)
+                    else roots in
+      (mk (set_db_roots d (aset c stored (d_roots d))) (set_m_roots m (aset c roots (m_roots m))) bs g, ODone true)
   | RenewC old new v2 wend =>
       (* the store moves the rows of the old contract to the new one; the manager gives the
          new contract the roots it has cached for the old one, and (v1, patched) forgets the
@@ -224,15 +309,15 @@ Definition step (s : state) (o : op) : state * obs :=
       let d2 := set_db_roots d1 (aremove old (aset new (roots_of (d_roots d) old) (d_roots d))) in
       let r1 := aset new (roots_of (m_roots m) old) (m_roots m) in
       let r2 := if v2 then r1 else aremove old r1 in
-      (mk d2 (set_m_roots m r2) bs, ODone true)
+      (mk d2 (set_m_roots m r2) bs g, ODone true)
   | Mine n =>
       let h := (d_tip d + n)%N in
-      (mk (set_db_tip (set_db_roots d (expire h (d_cs d) (d_roots d))) h) (set_m_tip m h) bs, OTip h)
+      (mk (set_db_tip (set_db_roots d (expire h (d_cs d) (d_roots d))) h) (set_m_tip m h) bs g, OTip h)
   | RegisterHook url scopes =>
       let id := next_id (d_hooks d) in
       let h := {| h_url := url; h_scopes := scopes |} in
       (mk (set_db_hooks d (d_hooks d ++ [(id, h)]))
-          (set_m_hooks m (aset id h (m_hooks m)) (add_scopes (m_tree m) id scopes)) bs, OHook id)
+          (set_m_hooks m (aset id h (m_hooks m)) (add_scopes (m_tree m) id scopes)) bs g, OHook id)
   | UpdateHook id url scopes =>
       match alookup id (d_hooks d) with
       | None => (s, ODone false)                     (* UPDATE ... RETURNING id: no rows *)
@@ -240,19 +325,19 @@ Definition step (s : state) (o : op) : state * obs :=
           let h := {| h_url := url; h_scopes := scopes |} in
           let d' := set_db_hooks d (aset id h (d_hooks d)) in
           match alookup id (m_hooks m) with
-          | None => (mk d' m bs, OPanic)             (* "UpdateWebhook called on nonexistent Webhook" *)
+          | None => (mk d' m bs g, OPanic)             (* "UpdateWebhook called on nonexistent Webhook" *)
           | Some _ =>
-              (mk d' (set_m_hooks m (aset id h (m_hooks m)) (add_scopes (remove_scopes (m_tree m) id) id scopes)) bs, ODone true)
+              (mk d' (set_m_hooks m (aset id h (m_hooks m)) (add_scopes (remove_scopes (m_tree m) id) id scopes)) bs g, ODone true)
           end
       end
   | RemoveHook id =>
       (mk (set_db_hooks d (aremove id (d_hooks d)))
-          (set_m_hooks m (aremove id (m_hooks m)) (remove_scopes (m_tree m) id)) bs, ODone true)
+          (set_m_hooks m (aremove id (m_hooks m)) (remove_scopes (m_tree m) id)) bs g, ODone true)
   | Broadcast e => (s, ODeliver (deliver m e))
   | SetSettings v =>
       (* store first (revision 0 on insert, +1 on update), then the cache with the stored revision *)
       let r := match d_settings d with Some (r, _) => (r + 1)%N | None => 0%N end in
-      (mk (set_db_settings d (Some (r, v))) (set_m_settings m (r, v)) bs, ODone true)
+      (mk (set_db_settings d (Some (r, v))) (set_m_settings m (r, v)) bs g, ODone true)
   | Credit a amt =>
       let nb := (mem_balance s a + amt)%N in
       let d' := set_db_bal d (aset a (bal_of (d_bal d) a + amt)%N (d_bal d)) in
@@ -260,12 +345,12 @@ Definition step (s : state) (o : op) : state * obs :=
                 | Some (_, n) => set_m_bal m (aset a (nb, n) (m_bal m))
                 | None => m
                 end in
-      (mk d' m' bs, ODone true)
+      (mk d' m' bs g, ODone true)
   | OpenBudget b a amt =>
       if match alookup b bs with Some _ => true | None => false end then (s, ODone false) else
       let '(bal, n) := match alookup a (m_bal m) with Some e => e | None => (bal_of (d_bal d) a, 0%N) end in
       if (bal <? amt)%N then (s, ODone false)
-      else (mk d (set_m_bal m (aset a ((bal - amt)%N, (n + 1)%N) (m_bal m))) (aset b (a, amt) bs), ODone true)
+      else (mk d (set_m_bal m (aset a ((bal - amt)%N, (n + 1)%N) (m_bal m))) (aset b (a, amt) bs) g, ODone true)
   | CommitBudget b spend =>
       match alookup b bs with
       | None => (s, ODone false)
@@ -273,12 +358,12 @@ Definition step (s : state) (o : op) : state * obs :=
           if (bal_of (d_bal d) a <? spend)%N then
             (* DebitAccount fails; the harness rolls the budget back *)
             match close_budget (m_bal m) a mx with
-            | Ok mb => (mk d (set_m_bal m mb) (aremove b bs), ODone false)
+            | Ok mb => (mk d (set_m_bal m mb) (aremove b bs) g, ODone false)
             | _ => (s, OPanic)
             end
           else
             match close_budget (m_bal m) a (mx - spend)%N with
-            | Ok mb => (mk (set_db_bal d (aset a (bal_of (d_bal d) a - spend)%N (d_bal d))) (set_m_bal m mb) (aremove b bs), ODone true)
+            | Ok mb => (mk (set_db_bal d (aset a (bal_of (d_bal d) a - spend)%N (d_bal d))) (set_m_bal m mb) (aremove b bs) g, ODone true)
             | _ => (s, OPanic)
             end
       end
@@ -287,19 +372,35 @@ Definition step (s : state) (o : op) : state * obs :=
       | None => (s, ODone true)
       | Some (a, mx) =>
           match close_budget (m_bal m) a mx with
-          | Ok mb => (mk d (set_m_bal m mb) (aremove b bs), ODone true)
+          | Ok mb => (mk d (set_m_bal m mb) (aremove b bs) g, ODone true)
           | _ => (s, OPanic)
           end
       end
   | AddVol id total =>
-      (mk (set_db_vols d (d_vols d ++ [(id, (false, total, true))])) (set_m_vols m (m_vols m ++ [id])) bs, ODone true)
+      (* the store hands out a fresh id; AddVolume creates the file *)
+      match alookup id (d_vols d) with
+      | Some _ => (s, ODone false)
+      | None =>
+          (mk (set_db_vols d (d_vols d ++ [(id, (false, total, true))])) (set_m_vols m (m_vols m ++ [(id, true)])) bs (unhide id g), ODone true)
+      end
   | SetRO id ro =>
+      (* refused unless the volume is in the map with status "ready" *)
       match alookup id (d_vols d) with
       | None => (s, ODone false)
       | Some (_, total, av) =>
-          if existsb (N.eqb id) (m_vols m) then (mk (set_db_vols d (aset id (ro, total, av) (d_vols d))) m bs, ODone true)
+          if vol_ready m id then (mk (set_db_vols d (aset id (ro, total, av) (d_vols d))) m bs g, ODone true)
           else (s, ODone false)
       end
+  | GrowVol id total =>
+      (* ResizeVolume: SetStatus(resizing) is refused unless the status is "ready" *)
+      match alookup id (d_vols d) with
+      | None => (s, ODone false)
+      | Some (ro, _, av) =>
+          if vol_ready m id then (mk (set_db_vols d (aset id (ro, total, av) (d_vols d))) m bs g, ODone true)
+          else (s, ODone false)
+      end
+  | HideVolFile id => (mk d m bs (hide id g), ODone true)      (* the running host keeps its open file *)
+  | RestoreVolFile id => (mk d m bs (unhide id g), ODone true)
   | Observe => (s, observe s)
   | Restart => (restart s, ODone true)
   | Failed => (s, ODone false)
@@ -310,7 +411,7 @@ Definition is_nil {A} (l : list A) : bool := match l with [] => true | _ => fals
 
 (* the two behaviours recorded as known findings: a v2 renewal of a contract that has
    roots, and a block that takes a contract with roots past its window *)
-Definition benign (s : state) (o : op) : bool :=
+Definition benign0 (s : state) (o : op) : bool :=
   match o with
   | RenewC old _ true _ => is_nil (roots_of (d_roots (db s)) old)
   | Mine n =>
@@ -319,10 +420,32 @@ Definition benign (s : state) (o : op) : bool :=
   | _ => true
   end.
 
+(* the property promises a volume back "if its file opens": a restart is only claimed
+   transparent while the same volume files open as at the last start.  A step that moves a
+   file of a stored volume away (or back) ends that; the next start re-establishes it. *)
+Definition files_as_loaded (s : state) : Prop := files_ok (gone s) (d_vols (db s)) = true.
+
+Definition file_present (s : state) (id : N) : bool := negb (file_gone (gone s) id).
+
+Definition benign (s : state) (o : op) : bool :=
+  benign0 s o &&
+  match o with
+  | HideVolFile id => files_ok (hide id (gone s)) (d_vols (db s))
+  | RestoreVolFile id => files_ok (unhide id (gone s)) (d_vols (db s))
+  | _ => true
+  end.
+
 Fixpoint benign_run (s : state) (l : list op) : bool :=
   match l with
   | [] => true
   | o :: t => benign s o && benign_run (fst (step s o)) t
+  end.
+
+(* histories in which volume files may come and go freely *)
+Fixpoint benign0_run (s : state) (l : list op) : bool :=
+  match l with
+  | [] => true
+  | o :: t => benign0 s o && benign0_run (fst (step s o)) t
   end.
 
 Definition runs (s : state) (l : list op) : state := fold_left (fun s o => fst (step s o)) l s.
@@ -335,16 +458,19 @@ Definition open_count (m : list (N * (N * N))) : nat :=
   fold_right (fun e acc => (N.to_nat (snd (snd e)) + acc)%nat) O m.
 
 (* in-memory state is what a start would load (lists of roots and the scope tree up to
-   representation) *)
-Definition coh (s : state) : Prop :=
+   representation; a volume is "ready" iff the store has it flagged available) *)
+Definition coh0 (s : state) : Prop :=
   (forall c, roots_of (m_roots (mem s)) c = roots_of (d_roots (db s)) c) /\
   NoDup (map fst (d_roots (db s))) /\ NoDup (map fst (m_roots (mem s))) /\
   m_hooks (mem s) = d_hooks (db s) /\ NoDup (map fst (d_hooks (db s))) /\
   tree_inv (m_tree (mem s)) (m_hooks (mem s)) /\
   m_settings (mem s) = match d_settings (db s) with Some rv => rv | None => (0%N, 0%N) end /\
   (open_count (m_bal (mem s)) = List.length (budgets s) /\ Forall (fun e => (1 <= snd (snd e))%N) (m_bal (mem s))) /\
-  m_vols (mem s) = map fst (d_vols (db s)) /\
+  m_vols (mem s) = map (fun v => (fst v, snd (snd v))) (d_vols (db s)) /\
   m_tip (mem s) = d_tip (db s).
+
+(* ... and the volume files that open now are those that opened at the last start *)
+Definition coh (s : state) : Prop := coh0 s /\ files_as_loaded s.
 
 (* two hosts that cannot be told apart: same store, and in-memory state equal up to the
    representation of the root cache and the order of the scope tree *)
@@ -355,7 +481,8 @@ Definition mequiv (m1 m2 : mems) : Prop :=
   m_settings m1 = m_settings m2 /\ m_bal m1 = m_bal m2 /\ m_vols m1 = m_vols m2 /\ m_tip m1 = m_tip m2.
 
 Definition sequiv (s1 s2 : state) : Prop :=
-  db s1 = db s2 /\ NoDup (map fst (d_roots (db s1))) /\ budgets s1 = budgets s2 /\ mequiv (mem s1) (mem s2).
+  db s1 = db s2 /\ NoDup (map fst (d_roots (db s1))) /\ budgets s1 = budgets s2 /\ gone s1 = gone s2 /\
+  mequiv (mem s1) (mem s2).
 
 (* what the outside sees of a history *)
 Fixpoint observations (s : state) (l : list op) : list obs :=
@@ -380,7 +507,7 @@ Definition obs_eqb (a b : obs) : bool :=
       list_eqb (pair_eqb N.eqb (pair_eqb N.eqb (list_eqb ln_eqb))) h h' &&
       pair_eqb N.eqb N.eqb s s' &&
       list_eqb (pair_eqb N.eqb N.eqb) b b' &&
-      list_eqb (pair_eqb N.eqb (pair_eqb (pair_eqb Bool.eqb N.eqb) Bool.eqb)) v v' &&
+      list_eqb (pair_eqb N.eqb (pair_eqb (pair_eqb (pair_eqb Bool.eqb N.eqb) Bool.eqb) Bool.eqb)) v v' &&
       (t =? t')%N
   | OPanic, OPanic => true
   | _, _ => false
